@@ -252,7 +252,7 @@ func c04(c *Ctx) {
 	// (4) reader level over a real socket: the same stream written to a real server in different
 	// segmentations; observable = the reader's dispatch events (executed / not supported) in order.
 	// Unfragmented frames of supported and unsupported ids on one connection.
-	supported := map[uint16]bool{0x0001: true, 0x0002: true, 0x0200: true, 0x0100: false, 0x0003: false, 0x0f01: false, 0x7e7d: false, 0x0005: false}
+	supported := map[uint16]bool{0x0001: true, 0x0002: true, 0x0200: true, 0x8003: true, 0x0003: false, 0x0f01: false, 0x0f02: false, 0x7e7d: false, 0x0005: false}
 	nsock := 25
 	if !quick {
 		nsock = 400
@@ -271,7 +271,7 @@ func c04(c *Ctx) {
 		var want []string
 		serial := uint16(rng.Intn(65536))
 		for j := 0; j < k; j++ {
-			ids := []uint16{0x0002, 0x0002, 0x0003, 0x0200, 0x0f01, 0x0001, 0x7e7d, 0x0005}
+			ids := []uint16{0x0002, 0x0002, 0x0003, 0x0200, 0x0f01, 0x0001, 0x7e7d, 0x0005, 0x8003, 0x0f02}
 			id := ids[rng.Intn(len(ids))]
 			var body []byte
 			switch id {
@@ -281,6 +281,13 @@ func c04(c *Ctx) {
 				body = []byte{byte(rng.Intn(256)), byte(rng.Intn(256)), 0x80, 0x01, 0}
 			case 0x0f01, 0x7e7d:
 				body = RandBody(rng, []int{0, 1, 7, 40, 300}[rng.Intn(5)])
+			case 0x0f02: // one frame larger than the 1023-byte read buffer once escaped
+				body = make([]byte, 1000+rng.Intn(24))
+				for x := range body {
+					body[x] = []byte{0x7e, 0x7d, 0x7e, 0x01}[rng.Intn(4)]
+				}
+			case 0x8003: // a re-request sent by the terminal: handed to the writer's channel, no reader callback
+				body = []byte{0, 1, 1, 0, 2}
 			}
 			f := FrameSpec{ID: id, Ver2019: v2019, Phone: phone, Serial: serial, Body: body}
 			serial++
@@ -289,7 +296,9 @@ func c04(c *Ctx) {
 			if supported[id] {
 				kind = "E"
 			}
-			want = append(want, fmt.Sprintf("%s:%d,%d,%s", kind, f.ID, f.Serial, Hx(f.Body)))
+			if id != 0x8003 {
+				want = append(want, fmt.Sprintf("%s:%d,%d,%s", kind, f.ID, f.Serial, Hx(f.Body)))
+			}
 		}
 		s := mkStream(fs)
 		n := len(s.wire)
@@ -304,12 +313,28 @@ func c04(c *Ctx) {
 			chunks [][]byte
 		}
 		for _, sg := range []seg{{"whole", [][]byte{s.wire}}, {"framewise", Chunks(s.wire, s.ends)}, {"coalesced", Chunks(s.wire, some)},
-			{"random", Chunks(s.wire, RandCuts(rng, n, 1+rng.Intn(6)))}, {"random2", Chunks(s.wire, RandCuts(rng, n, 1+rng.Intn(12)))}} {
+			{"random", Chunks(s.wire, RandCuts(rng, n, 1+rng.Intn(6)))}, {"random2", Chunks(s.wire, RandCuts(rng, n, 1+rng.Intn(12)))},
+			{"in-escape", Chunks(s.wire, escCuts(s.wire))}, {"at-delimiter", Chunks(s.wire, delimCuts(s.ends))}, {"bytewise", bytewiseIfShort(s.wire)}} {
 			kind, chunks := sg.kind, sg.chunks
+			if chunks == nil {
+				continue
+			}
 			req := "rd " + HexChunks(chunks, "")
 			ans := c.Do(req, len(chunks) != len(fs))
 			c.Count("socket/" + kind)
-			if w := "ok " + strings.Join(want, ";"); ans != w {
+			late := append([]string{}, SockLate...)
+			if len(late) > 0 { // slowness alone is never a violation: ask again, report only what persists
+				c.Count("socket/late-retry")
+				if again := RunOp(req); again == ans && len(SockLate) > 0 {
+					c.Violate(Violation{Signature: "C04/reader_prompt", What: "after a read the reader had not dispatched every frame whose closing delimiter was already sent (twice in a row, 400 ms each)",
+						Input: req, Observed: strings.Join(SockLate, " "), Required: "after each write: events = frames closed so far (bytes sent:have/want)"})
+				}
+			}
+			w := "ok " + strings.Join(want, ";")
+			if len(want) == 0 {
+				w = "ok -"
+			}
+			if ans != w {
 				c.Violate(Violation{Signature: "C04/reader_" + kind, What: "the reader's dispatch events over a real connection differ from the frames sent",
 					Input: req, Observed: Trunc(ans, 3000), Required: Trunc(w, 3000)})
 			}
@@ -396,4 +421,39 @@ func sortedUniq(a []int) []int {
 		}
 	}
 	return out
+}
+
+func escCuts(wire []byte) []int {
+	var cuts []int
+	for i := 0; i+1 < len(wire); i++ {
+		if wire[i] == 0x7d {
+			cuts = append(cuts, i+1)
+		}
+	}
+	if len(cuts) == 0 {
+		return []int{len(wire) / 2}
+	}
+	if len(cuts) > 40 {
+		cuts = cuts[:40]
+	}
+	return cuts
+}
+
+func delimCuts(ends []int) []int {
+	var cuts []int
+	for _, e := range ends {
+		cuts = append(cuts, e-1)
+	}
+	return sortedUniq(cuts)
+}
+
+func bytewiseIfShort(wire []byte) [][]byte {
+	if len(wire) > 160 {
+		return nil
+	}
+	var cuts []int
+	for a := 1; a < len(wire); a++ {
+		cuts = append(cuts, a)
+	}
+	return Chunks(wire, cuts)
 }
